@@ -53,6 +53,12 @@ def ops_for(rng, p, st, tier):
             ops.append(dict(op="ref", keys=P.key_repr(rng, steps), oracle=P.oracle_for(rng, p.t), _steps=steps, _leaf=leaf))
         if not leaf and rng.random() < 0.3:
             ops.append(dict(op="de", keys=P.key_repr(rng, steps), payload=list(b"1"), oracle=P.oracle_for(rng, p.t), _steps=steps, _leaf=leaf))
+    # ---- dedicated programs (recorded findings): the inputs that exhibit the finding are not left to chance
+    if type_level and getattr(p, "cls", None) == "dup-names":
+        for steps, leaf in nodes:
+            for kind in ("names", "path", "json"):
+                for w in ("idx", "path"):
+                    ops.append(dict(op="transcode", keys=P.key_repr(rng, steps, kind), tg=targets_for(rng, steps, [w])[0], _steps=steps, _leaf=leaf))
     # ---- C05: read by key, write the produced bytes back by the same key (JSON and postcard)
     for steps, leaf in nodes:
         if leaf or rng.random() < 0.2:
